@@ -940,7 +940,7 @@ fn main() {
     }
 
     // ---- oracles (b) and (d) on lists
-    for _ in 0..120 * sc {
+    for it in 0..120 * sc {
         let hosts = r.chance(1, 5);
         let f = if hosts { FilterFormat::Hosts } else { FilterFormat::Standard };
         let n = r.range(1, 10);
@@ -968,6 +968,16 @@ fn main() {
                 let at = r.below(with.len() + 1);
                 with.insert(at, j);
                 inserted += 1;
+            }
+        }
+        // every kind of metadata / comment line once in front of a whole list (and once in the middle)
+        if it < 2 * META_LINES.len() {
+            let j = META_LINES[it % META_LINES.len()].to_string();
+            if no_newline(&j) && is_rejected(&j, f) {
+                let at = if it < META_LINES.len() { 0 } else { with.len() / 2 };
+                with.insert(at, j);
+                inserted += 1;
+                cs.stat("junk_lists:metadata_line_of_every_kind");
             }
         }
         let urls = urls_for(&mut r, &rules);
